@@ -71,7 +71,7 @@ ReprFn(o)  == IF o = 0 THEN 0 ELSE prog.cls[ClsOf(o)].repr      \* the class's o
 Frame(k, u, f, o, a, lvl, sub) ==
   [k |-> k, u |-> u, f |-> f, o |-> o, a |-> a, lvl |-> lvl, pc |-> "enter", sub |-> sub,
    g |-> 1, i |-> 1, skip |-> FALSE, mk |-> FALSE, pos |-> 1, res |-> 0, exc |-> NoOut,
-   old |-> <<>>, c |-> 0, fid |-> 0, ph |-> ""]
+   old |-> <<>>, c |-> 0, fid |-> 0, ph |-> "", bad |-> FALSE]
 
 NoEv == [e |-> "silent", t |-> 0, id |-> 0, o |-> 0, a |-> 0, v |-> 0, cls |-> "", old |-> <<>>, res |-> 0,
          ip |-> {}, ph |-> "", sk |-> FALSE]
@@ -153,13 +153,17 @@ Unch_misc == UNCHANGED <<prog, ost, status, nx, ns>>
 
 IsFault(n)   == n > 0 /\ (prog.fault.at = n \/ \E j \in DOMAIN prog.fault.more : prog.fault.more[j] = n)
 
+\* a call that passes the extra keyword argument result=... (through the callee's **kwargs)
+IsBad(op) == "bad" \in DOMAIN op /\ op.bad = 1
+BadKwId == -1
+
 UsrFrame(u, id, o, a, role, n, owner) == [Frame("usr", u, id, o, a, 0, role) EXCEPT !.fid = n, !.g = owner]
 
 \* "call the wrapped callable": next wrapper of the chain, or the body itself
 CallInner(t, fr) ==
   LET ch == FN(fr.f).chain IN
   IF fr.lvl < Len(ch)
-    THEN /\ PushOn(t, fr, Frame(ch[fr.lvl + 1], "", fr.f, fr.o, fr.a, fr.lvl + 1, ""))
+    THEN /\ PushOn(t, fr, [Frame(ch[fr.lvl + 1], "", fr.f, fr.o, fr.a, fr.lvl + 1, "") EXCEPT !.bad = fr.bad])
          /\ reg' = [reg EXCEPT ![t] = NoOut]
          /\ Silent /\ Unch_ip /\ Unch_misc
     ELSE /\ PushOn(t, fr, UsrFrame("body", fr.f, fr.o, fr.a, "", nx + 1, fr.f))
@@ -295,7 +299,11 @@ ChkStep(t) ==
            ELSE /\ SetTop(t, [fr EXCEPT !.mk = TRUE, !.pc = "pre"])
                 /\ Mark(t, FKey(f)) /\ reg' = [reg EXCEPT ![t] = NoOut] /\ Silent /\ Unch_misc
     [] fr.pc = "pre" ->
-         IF fr.sub = "" /\ fr.g > Len(P)
+         IF fr.bad /\ FN(f).post # <<>>
+           THEN \* the call passes a keyword named like a reserved name of postconditions (result): rejected after the
+                \* marker was set and before any condition runs; the marker is restored at the exit like always
+                Leave(t, fr, Raise("TypeError", BadKwId))
+         ELSE IF fr.sub = "" /\ fr.g > Len(P)
            THEN \* no group left: no preconditions at all, or the last group failed
                 IF fr.exc.k = "none" THEN Goto(t, [fr EXCEPT !.pc = "snap", !.i = 1])
                 ELSE Leave(t, fr, fr.exc)
@@ -482,9 +490,10 @@ UsrStep(t) ==
               /\ reg' = [reg EXCEPT ![t] = NoOut] /\ Silent /\ Unch_ip /\ Unch_misc
          [] op.when \in {0, fr.a} /\ op.op = "call" ->
               \* op.o = -1: the instance this user code was called with ("self")
-              /\ PushOn(t, nfr, Frame("call", "", op.f, IF op.o = -1 THEN fr.o ELSE op.o, op.a, 0, ""))
+              /\ PushOn(t, nfr, [Frame("call", "", op.f, IF op.o = -1 THEN fr.o ELSE op.o, op.a, 0, "")
+                                    EXCEPT !.bad = IsBad(op)])
               /\ reg' = [reg EXCEPT ![t] = NoOut]
-              /\ Emit(Ev("call", t, op.f, IF op.o = -1 THEN fr.o ELSE op.o, op.a, 0, "", <<>>, 0, fr.u, FALSE))
+              /\ Emit(Ev("call", t, op.f, IF op.o = -1 THEN fr.o ELSE op.o, op.a, IF IsBad(op) THEN 1 ELSE 0, "", <<>>, 0, fr.u, FALSE))
               /\ Unch_ip /\ Unch_misc
          [] op.when \in {0, fr.a} /\ op.op = "await" ->
               /\ SetTop(t, [nfr EXCEPT !.pc = IF prog.fault.at = -1 /\ prog.fault.n = ns + 1 THEN "susp!" ELSE "run"])
